@@ -48,7 +48,9 @@ ASSUMPTIONS = [
     "auxiliary (non-ODX) archive members are outside the property and not compared",
     "behavioural equality is judged on a fixed script: encode every request of every ECU variant with searched parameter values, decode the result, encode/decode the first positive response; results and exception type names must agree",
 ]
-MUST_HIT = ["generated", "gen:deco:pos-response-suppressable", "gen:deco:sdg:STRUCTURE", "gen:deco:sdg:PARAM", "gen:const:bytefield", "gen:mux", "gen:dlfield", "gen:table", "gen:dtc", "gen:emfield", "gen:dct:paramlen", "example", "kind:samename", "samename-entry", "text-with-tab-lf", "kind:text", "kind:raw", "kind:bool", "kind:int", "kind:enum", "kind:sub",
+# gen:deco:variable-group(-ref) join MUST_HIT once pending_fixes/C11-variable-group-parser.diff is applied (capability-gated)
+MUST_HIT = ["generated", "gen:deco:company-datas", "gen:deco:admin-data:layer", "gen:deco:admin-data:dop", "gen:deco:admin-data:request", "gen:deco:admin-data:service", "gen:deco:funct-class", "gen:deco:audience", "gen:deco:state-chart", "gen:deco:single-ecu-job", "gen:deco:library", "gen:deco:related-diag-comm", "gen:deco:dyn-defined-spec", "gen:deco:diag-variable", "gen:deco:table-diag-comm-connector", "gen:deco:sub-component", "gen:deco:unit-spec", "gen:deco:constr", "gen:deco:linked-dtc-dop", "gen:deco:empty-long-name",
+            "gen:deco:pos-response-suppressable", "gen:deco:sdg:STRUCTURE", "gen:deco:sdg:PARAM", "gen:const:bytefield", "gen:mux", "gen:dlfield", "gen:table", "gen:dtc", "gen:emfield", "gen:dct:paramlen", "example", "kind:samename", "samename-entry", "text-with-tab-lf", "kind:text", "kind:raw", "kind:bool", "kind:int", "kind:enum", "kind:sub",
             "kind:sublist", "kind:xhtml", "composed", "entry:load_directory", "entry:load_files",
             "entry:load_pdx_file-permuted", "roundtrip-ok", "behaviour-encoded"]
 
@@ -128,7 +130,17 @@ def _eval_generated(case: dict, res: Optional[core.ShardResult]) -> List[core.Fa
     cm = _quiet()
     try:
         pp.set_strict(True)
-        db = emit.load(case["xml"].encode("utf-8"))   # a generated document odxtools rejects is a harness error
+        if "<CODE-FILE>" in case["xml"]:
+            # PROG-CODE / LIBRARY snippets name code files: they must exist as auxiliary files of the database
+            import io
+            from odxtools.database import Database
+            from vlib.models import odxsnippets
+            db = Database()
+            db.add_odx_file(io.BytesIO(case["xml"].encode("utf-8")))
+            odxsnippets.add_aux_files(db)
+            db.refresh()                              # a generated document odxtools rejects is a harness error
+        else:
+            db = emit.load(case["xml"].encode("utf-8"))   # a generated document odxtools rejects is a harness error
     finally:
         cm.__exit__(None, None, None)
     classes = {"generated"} | {"gen:" + f for f in case.get("features", [])}
@@ -186,6 +198,27 @@ def _xml_context(data: bytes, line: int, col: int) -> str:
         return f"attr:{tag[-1] if tag else '?'}@{m.group(1)}"
     tags = re.findall(r"<([A-Za-z_][\w:.-]*)", text)
     return f"text:{tags[-1]}" if tags else "?"
+
+
+def _xml_open_path(data: bytes, line: int, col: int, depth: int = 2) -> str:
+    """the innermost `depth` open elements at the position where the XML parser stopped
+    (e.g. `STATE-CHART/SEMANTIC`): tells apart equally named elements of different macros"""
+    try:
+        lines = data.decode("utf-8", "replace").split("\n")
+        text = "\n".join(lines[:line - 1] + [lines[line - 1][:col]])
+    except Exception:
+        return "?"
+    stack: List[str] = []
+    for m in re.finditer(r"<(/?)([A-Za-z_][\w:.-]*)((?:\"[^\"]*\"|'[^']*'|[^<>\"'])*?)(/?)>", text):
+        if m.group(1):
+            if stack and stack[-1] == m.group(2):
+                stack.pop()
+        elif not m.group(4):
+            stack.append(m.group(2))
+    tail = re.search(r"<([A-Za-z_][\w:.-]*)[^<>]*$", text)      # an unfinished start tag
+    if tail:
+        stack.append(tail.group(1))
+    return "/".join(stack[-depth:]) or "?"
 
 
 def _behaviour(db) -> Tuple[list, int]:
@@ -338,7 +371,7 @@ def evaluate(db1, case: dict, classes: set, perturbed: Optional[List[str]] = Non
                                      f"({where})", case,
                                      # root cause = the template position that emitted the broken text
                                      {"bucket": f"{where}|not-well-formed", "key": pkey, "mode": "not-well-formed",
-                                      "where": where})]
+                                      "where": where, "where2": _xml_open_path(data, line, col)})]
         # 3. load
         try:
             db2 = odxtools.load_pdx_file(p1)
@@ -597,6 +630,8 @@ def replay(case) -> list:
 # ---------------------------------------------------------------------------
 def shards(tier):
     out = []
+    for i in range(4 if tier == "quick" else 12):      # the longest shards first
+        out.append(("generated", i))
     for i in range(N_MATRIX_SHARDS):
         out.append(("matrix", i))
     n_comp = 8 if tier == "quick" else 16
@@ -606,8 +641,6 @@ def shards(tier):
     for i in range(n_ord):
         out.append(("order", i))
     out.append(("examples", 0))
-    for i in range(4 if tier == "quick" else 12):
-        out.append(("generated", i))
     return out
 
 
@@ -680,11 +713,13 @@ def run_shard(spec, seed, tier):
             xml = emit.message_doc([c["msg"]]).decode("utf-8")
             feats = list(c["features"])
             xml, deco = decorate(draw, xml)
-            return {"kind": "generated", "xml": xml, "features": feats + deco}
+            from vlib.models import odxsnippets
+            xml, deco2 = odxsnippets.decorate_more(draw, xml)
+            return {"kind": "generated", "xml": xml, "features": feats + deco + deco2}
 
         def body(case):
             return _filter_known(_eval_generated(case, res), kf, res)
-        n = 40 if tier == "quick" else 250
+        n = 32 if tier == "quick" else 250
         found = core.hyp_search(docs(), body, seed, n, shrink_budget_s=40)
         if found:
             res.failures.extend(found)
